@@ -484,7 +484,7 @@ func (s *Scheme) Sign(c context.Context, msgHash []byte, topic string) ([]byte, 
 
 		start2 := time.Now()
 
-		signingProtocol, err := s.prepareSigning(membership, partyIDs, topicHash, UIntsToUniversalIDs(signers))
+		signingProtocol, err := s.prepareSigning(ctx, membership, partyIDs, topicHash, UIntsToUniversalIDs(signers))
 		if err != nil {
 			s.Logger.Errorf("Failed initializing signing instance: %v", err)
 			resultChan <- struct {
@@ -546,6 +546,13 @@ func (s *Scheme) Sign(c context.Context, msgHash []byte, topic string) ([]byte, 
 		return nil, err
 	}
 
+	// Free the topic no matter how we return. The context is cancelled first, so that a signing
+	// instance that is still being prepared in the background does not register itself afterwards.
+	defer func() {
+		cancel()
+		cleanup()
+	}()
+
 	go func() {
 		if err := sync.Synchronize(ctx, initializeSigningInstance, topicHash, s.Threshold+1, SyncInterval); err != nil {
 			// suppress error in case we signed successfully
@@ -600,7 +607,7 @@ func (s *Scheme) initializeSyncForSigning(topic string, topicHash []byte, member
 	return sync, nil
 }
 
-func (s *Scheme) prepareSigning(membership *membership, parties []PartyID, topicHash []byte, signers []UniversalID) (Signer, error) {
+func (s *Scheme) prepareSigning(ctx context.Context, membership *membership, parties []PartyID, topicHash []byte, signers []UniversalID) (Signer, error) {
 	signingProtocol, err := s.initializeThresholdSigning(membership, parties, topicHash, signers)
 	if err != nil {
 		return nil, err
@@ -624,6 +631,13 @@ func (s *Scheme) prepareSigning(membership *membership, parties []PartyID, topic
 	}
 
 	s.lock.Lock()
+
+	// Sign() cancels the context before it frees the topic, hence once the context is done
+	// the signing instance must not be registered anymore.
+	if err := ctx.Err(); err != nil {
+		s.lock.Unlock()
+		return nil, err
+	}
 
 	_, rbcExisted := s.rbcInProgress[string(topicHash)]
 	s.rbcInProgress[string(topicHash)] = rbc.Receive
